@@ -194,6 +194,11 @@ func (c *FnCtx) evalBuiltin(st *State, call *ast.CallExpr, name string) []*Term 
 		st.assume(mkLe(c.sliceLen(x), r))
 		return []*Term{r}
 	case "append":
+		if why := c.borrowedReslice(call.Args[0]); why != "" {
+			// slice capacity and backing arrays are not modelled: appending to a reslice of a slice the function did not create
+			// writes into the owner's backing array (in-place filtering of pass.Files, seed C11-6) - shared state (C11)
+			c.oblige(st, "frame:alias", call, "", "append to "+why+": the elements are written into a backing array this function does not own", tFalse)
+		}
 		s := c.eval(st, call.Args[0])
 		st0 := s
 		if call.Ellipsis.IsValid() {
@@ -1110,4 +1115,74 @@ func (c *FnCtx) markImprecise(what string) {
 		}
 	}
 	c.imprecise = append(c.imprecise, what)
+}
+
+
+// borrowedReslice: e is a slice expression x[a:b] - or a local variable every assignment of which is one or an append to
+// itself - whose base x is rooted in a parameter, a field or a package-level variable (a slice the function did not make).
+// Returns a description, or "" if not.
+func (c *FnCtx) borrowedReslice(e ast.Expr) string {
+	foreign := func(x ast.Expr) bool {
+		for {
+			switch y := ast.Unparen(x).(type) {
+			case *ast.SelectorExpr:
+				return true // a field (of a parameter, a receiver, a global ...)
+			case *ast.Ident:
+				v, ok := c.info.ObjectOf(y).(*types.Var)
+				if !ok {
+					return false
+				}
+				if c.isGlobal(v) {
+					return true
+				}
+				// a parameter or receiver of the function
+				if sig, ok := c.info.ObjectOf(c.fi.Decl.Name).Type().(*types.Signature); ok {
+					for i := 0; i < sig.Params().Len(); i++ {
+						if sig.Params().At(i) == v {
+							return true
+						}
+					}
+				}
+				return false
+			case *ast.IndexExpr:
+				x = y.X
+			default:
+				return false
+			}
+		}
+	}
+	if se, ok := ast.Unparen(e).(*ast.SliceExpr); ok {
+		if _, isSlice := types.Unalias(c.typeOf(se.X)).Underlying().(*types.Slice); isSlice && foreign(se.X) {
+			return "a reslice of " + c.exprText(se.X)
+		}
+		return ""
+	}
+	id, ok := ast.Unparen(e).(*ast.Ident)
+	if !ok || c.fi == nil || c.fi.Decl == nil || c.fi.Decl.Body == nil {
+		return ""
+	}
+	v, ok := c.info.ObjectOf(id).(*types.Var)
+	if !ok || c.isGlobal(v) {
+		return ""
+	}
+	why := ""
+	ast.Inspect(c.fi.Decl.Body, func(n ast.Node) bool {
+		as, ok := n.(*ast.AssignStmt)
+		if !ok || len(as.Lhs) != len(as.Rhs) {
+			return true
+		}
+		for i, l := range as.Lhs {
+			lid, ok := ast.Unparen(l).(*ast.Ident)
+			if !ok || c.info.ObjectOf(lid) != v {
+				continue
+			}
+			if se, ok := ast.Unparen(as.Rhs[i]).(*ast.SliceExpr); ok {
+				if _, isSlice := types.Unalias(c.typeOf(se.X)).Underlying().(*types.Slice); isSlice && foreign(se.X) {
+					why = "a reslice of " + c.exprText(se.X) + " (held in " + v.Name() + ")"
+				}
+			}
+		}
+		return true
+	})
+	return why
 }
